@@ -126,6 +126,8 @@ func H03b_connack() {
 	sp := vrtBool("sp")
 	rc := vrtByte("rc")
 	vrtAssume(rc <= 5)
+	m.SetSessionPresent(vrtBool("sp.before"))
+	m.SetReturnCode(ConnackCode(vrtByte("rc.before") % 6))
 	m.SetSessionPresent(sp)
 	m.SetReturnCode(ConnackCode(rc))
 	vrtEncodeCheck(m, &specPkt{Typ: 2, SP: sp, RC: rc})
@@ -142,6 +144,11 @@ func H03b_publish() {
 	}
 	payload := vrtBytes("payload", vrtBound("N03payload", 3))
 	m.SetPayload(payload)
+	q0 := vrtByte("qos.before")
+	vrtAssume(q0 <= 2)
+	m.SetQoS(q0)
+	m.SetDup(vrtBool("dup.before"))
+	m.SetRetain(vrtBool("retain.before"))
 	q := vrtByte("qos")
 	vrtAssume(q <= 2)
 	vrtAssert("C03.setqos", m.SetQoS(q) == nil)
@@ -528,4 +535,58 @@ func H03e_lpstring_max() {
 		vrtAssert("C03.lp_short_refused", err3 != nil)
 	}
 	vrtReach("C03.lp")
+}
+
+// H03g: setter histories - every flag-like setter is called twice, first with an
+// arbitrary earlier value; the encoding must depend on the last call only.
+func H03g_connect_setter_history() {
+	m := NewConnectMessage()
+	m.SetVersion(4)
+	m.SetClientID([]byte("c"))
+	wt, wm := []byte("w"), []byte("m")
+	m.SetWillTopic(wt)
+	m.SetWillMessage(wm)
+	before := vrtByte("before")
+	q0 := before & 3
+	vrtAssume(q0 <= 2)
+	m.SetCleanSession(before&4 != 0)
+	m.SetWillQos(q0)
+	m.SetWillRetain(before&8 != 0)
+	m.SetKeepAlive(vrtUint16("keepalive.before"))
+	m.SetUsername([]byte("u"))
+	m.SetPassword([]byte("p"))
+	if before&16 != 0 {
+		m.SetPassword(nil)
+	}
+	if before&32 != 0 {
+		m.SetUsername(nil)
+		m.SetPassword(nil)
+	}
+	// final values
+	clean, wr := vrtBool("clean"), vrtBool("willretain")
+	wq := vrtByte("willqos")
+	vrtAssume(wq <= 2)
+	ka := vrtUint16("keepalive")
+	m.SetCleanSession(clean)
+	vrtAssert("C03.setwillqos", m.SetWillQos(wq) == nil)
+	m.SetWillRetain(wr)
+	m.SetKeepAlive(ka)
+	exp := specPkt{Typ: 1, Proto: []byte("MQTT"), Level: 4, KeepAlive: ka, ClientID: []byte("c"), WillTopic: wt, WillMsg: wm}
+	exp.CFlags = vrtB2b(clean, 2) | 4 | wq<<3 | vrtB2b(wr, 32)
+	if vrtBool("user") {
+		m.SetUsername([]byte("uu"))
+		exp.User = []byte("uu")
+		exp.CFlags |= 0x80
+		if vrtBool("pass") {
+			m.SetPassword([]byte("pp"))
+			exp.Pass = []byte("pp")
+			exp.CFlags |= 0x40
+		} else {
+			m.SetPassword(nil)
+		}
+	} else {
+		m.SetUsername(nil)
+		m.SetPassword(nil)
+	}
+	vrtEncodeCheck(m, &exp)
 }
